@@ -100,6 +100,18 @@ def coq_make(targets, timeout=1500, jobs=12):
     return rc == 0, out
 
 
+def support_targets():
+    """every Model file (and the proof files that generated case files import): they must be consistent with the
+    regenerated Gen files before any case file is compiled against them"""
+    tg = []
+    with open(os.path.join(COQ, '_CoqProject')) as f:
+        for line in f:
+            line = line.strip()
+            if line.startswith('theories/Model/') and line.endswith('.v'):
+                tg.append(line[:-2] + '.vo')
+    return tg + ['theories/Proofs/AllocProofs.vo']
+
+
 def coqc_file(path, timeout=600):
     """Compiles one stand-alone file against the built development; returns (ok, output)."""
     with CoqLock(shared=True):
@@ -207,7 +219,7 @@ class Check:
         """Builds theories/Properties/<module>.vo (and deps) and checks that each listed theorem
         exists and what it assumes.  One obligation per theorem."""
         t = time.time()
-        ok, log = coq_make([f'theories/Properties/{module}.vo', 'theories/Model/Corr.vo'], timeout=timeout)
+        ok, log = coq_make([f'theories/Properties/{module}.vo'] + support_targets(), timeout=timeout)
         self.checker_cmds.append(f'make -C coq theories/Properties/{module}.vo  (coq_makefile, full .vo build)')
         if not ok:
             err = coq_first_error(log)
